@@ -132,7 +132,9 @@ fn chain(u: &mut Unstructured) -> R<Chain> {
 
 fn zop(u: &mut Unstructured) -> R<ZOp> {
     let t = |u: &mut Unstructured| -> R<Option<u8>> { Ok(if n(u, 1)? == 0 { None } else { Some(n(u, 255)? as u8) }) };
-    Ok(match n(u, 30)? {
+    Ok(match n(u, 32)? {
+        31 => ZOp::Serde(b(u)?),
+        32 => ZOp::Par(n(u, 255)? as u8),
         0 | 1 => ZOp::Insert,
         2 | 3 => ZOp::Dup(n(u, 255)? as u8),
         4 | 5 => ZOp::Remove,
@@ -196,7 +198,7 @@ fn op(u: &mut Unstructured) -> R<Op> {
         38 => if n(u, 2)? == 0 { Op::LingerFull { s } } else { Op::RemoveOld { s, how: n(u, 4)? as u8, keep: n(u, 11)? as u8 } },
         39 => if n(u, 1)? == 0 { Op::RemoveAll { s } } else { Op::TightShrink { s, over: b(u)? } },
         40 => Op::SetPoint { s, k: keysel(u)?, which: n(u, 8)? as u8 },
-        41 => Op::SetMisc { s, which: n(u, 4)? as u8, arg: caparg(u)? },
+        41 => Op::SetMisc { s, which: n(u, 5)? as u8, arg: caparg(u)? },
         42 => Op::SetRetain { s, pred: pred(u)? },
         43 => Op::SetDrainFilter { s, pred: pred(u)?, take: take(u)?, forget: n(u, 3)? == 0 },
         _ => Op::Z(zop(u)?),
